@@ -693,6 +693,11 @@ size_t varintBP128DeltaEncode64(uint8_t *dst, const uint64_t *values,
         meta->blockCount =
             (count + VARINT_BP128_BLOCK_SIZE - 2) / VARINT_BP128_BLOCK_SIZE;
         meta->encodedBytes = (size_t)(ptr - dst);
+        /* Deltas are packed for count - 1 values (as in DeltaEncode32) */
+        meta->lastBlockSize = (count - 1) % VARINT_BP128_BLOCK_SIZE;
+        if (meta->lastBlockSize == 0) {
+            meta->lastBlockSize = VARINT_BP128_BLOCK_SIZE;
+        }
         meta->maxBitWidth = maxBitWidth;
     }
 
